@@ -287,6 +287,14 @@ func genHistory(w *World, seed uint64, cfg GenCfg, ops io.Writer, obs io.Writer)
 					g.queued = append(g.queued, Tx{Signer: -1, Msgs: []Msg{orig}})
 				}
 			}
+			if tx.Signer >= 0 && cfg.Mode != "calm" && len(tx.Msgs) == 1 && tx.Msgs[0].Kind == "CREATE" && g.R.P(15) {
+				// an application inside a transaction whose last message fails (the applicant is not the admin): the
+				// application vanishes with it; the applicant then applies again, on its own — and has to be accepted exactly
+				// as if the first attempt had never been made
+				orig := tx.Msgs[0]
+				tx.Msgs = append(tx.Msgs, Msg{Kind: "SETPOWER", Args: []string{itoa(g.R.N(NOPS)), "5000000", "1"}})
+				g.queued = append(g.queued, Tx{Signer: tx.Signer, Msgs: []Msg{orig}})
+			}
 			if wildSigner[tx.Signer] {
 				continue // a signer whose earlier tx has an unmodelled outcome signs nothing more in this block
 			}
